@@ -47,7 +47,7 @@ def covering_removed(ctx, rule, cfg="A"):
     # the removed index is the position of the element whose bits equal the covering prefix's bits
     idx = rem[0]["argv"][1]
     okidx = idx.op == "iter_position" and Q.path_of(idx.args[0].args[0] if idx.args[0].op == "iter" else idx.args[0]) == "self.%d" % ipf \
-        and idx.args[1].op == "eq" and {"pfx.0"} <= {p for p in Q.params(Q.leaves(idx.args[1]))}
+        and idx.args[1].op == "eq" and ({"pfx.0"} <= Q.params(Q.leaves(idx.args[1])) or {"pfx"} <= Q.params(Q.leaves(idx.args[1])))
     ctx.add(rule, KPUNC + "#removed-is-covering-prefix", okidx,
             "the removed element must be the one whose bits equal the covering prefix; index term %s" % S(idx, 5), rem[0]["at"],
             sample=S(idx, 5))
